@@ -178,7 +178,7 @@ func (t jtx) render(order int, dupKey string) string {
 	return "{" + body + "}"
 }
 
-var dupKinds = []string{"", "", "", "", "input.missing-type", "input.missing-type-dup", "input.amount", "input.address", "input.type", "input.extra", "transfer.amount", "transfer.extra", "transfer.amount-replaced", "transfer.wrap", "transfer.wrap-int64", "transfer.sum-over-int64", "tx.input", "tx.conversion", "tx.transfers", "tx.transfers-null", "tx.conversion-empty", "tx.extra", "tx.both",
+var dupKinds = []string{"", "", "", "", "input.missing-type", "input.missing-type-dup", "input.amount", "input.address", "input.type", "input.extra", "transfer.amount", "transfer.extra", "transfer.amount-replaced", "transfer.wrap", "transfer.wrap-int64", "transfer.sum-over-int64", "twin-transfers", "tx.input", "tx.conversion", "tx.transfers", "tx.transfers-null", "tx.conversion-empty", "tx.extra", "tx.both",
 	"batch.version", "batch.transactions", "batch.extra", "batch.metadata", "case.version", "case.transactions", "case.input", "case.amount", "unicode.key", "neither", "two-inputs", "unknown-ticker", "unknown-conv", "escaped-ticker", "ws"}
 
 func (g *c20gen) batch() (string, string) {
@@ -186,8 +186,39 @@ func (g *c20gen) batch() (string, string) {
 	n := 1 + g.rng.Intn(3)
 	kind := dupKinds[g.rng.Intn(len(dupKinds))]
 	var txs []string
+	if kind == "twin-transfers" && n < 2 {
+		n = 2
+	}
+	var twin *jtx
 	for i := 0; i < n; i++ {
 		t := g.tx(from)
+		if kind == "twin-transfers" {
+			// transfers with the same amounts at the same positions, to different recipients: every transaction of a
+			// batch is a value of its own
+			if twin == nil {
+				t.conv, t.meta = "", ""
+				if len(t.outs) == 0 {
+					t.outs = [][2]string{{g.addr(), "1000"}, {g.addr(), "2500"}}
+					t.amount = "3500"
+				} else {
+					tot := new(big.Int)
+					for _, o := range t.outs {
+						b, _ := new(big.Int).SetString(o[1], 10)
+						tot.Add(tot, b)
+					}
+					t.amount = tot.String()
+				}
+				c := t
+				twin = &c
+			} else {
+				t = *twin
+				t.typ = g.ticker()
+				t.outs = nil
+				for _, o := range twin.outs {
+					t.outs = append(t.outs, [2]string{g.addr(), o[1]})
+				}
+			}
+		}
 		dk := ""
 		if i == 0 && (strings.HasPrefix(kind, "input.") || strings.HasPrefix(kind, "transfer.") || strings.HasPrefix(kind, "tx.")) {
 			dk = kind
